@@ -264,6 +264,94 @@ def build(mode):
     return b
 
 
+# ------------------------------------------------------------------------------------------------ h3: differential vs revm CacheAccount
+OPS = ["selfdestruct", "touch_empty_eip161", "newly_created", "change", "increment_balance"]
+
+
+def diff_cfg():
+    ov = revm_types.base_overrides()
+    ov.update(revm_models.type_overrides(WIDE))
+    # here AccountStatus is revm-database's enum (variant order copied from its source), not revm-state's flag byte
+    names = sorted(ST, key=lambda k_: ST[k_])
+    ov["AccountStatus"] = lambda tr, ty, name, dims, storage, g=None: tr.make_enum(ty, name, dims, storage, [(v, []) for v in names], g)
+    return {"type_overrides": ov, "stubs": {"<Level as PartialOrd>::le": sc.m_level_le}, "cap": 2, "noops": [r"^metrics::"], "dead_calls": sc.TRACING_DEAD,
+            "opaque_types": [r"tracing"], "key_caps": {"Address": A, "Uint": SL, "U256": SL, "StorageKey": SL}, "key_cap": SL,
+            "consts": revm_models.consts(), "extra_src": revm_models.extra_src_roots(), "extra_mir_pkgs": ["revm-database"], "set_iter_cap": 2,
+            "aliases": {"EvmState": "HashMap<Address, Account>", "EvmStorage": "HashMap<StorageKey, EvmStorageSlot>",
+                        "PlainStorage": "HashMap<StorageKey, StorageValue>", "StorageWithOriginalValues": "HashMap<StorageKey, StorageSlot>"}}
+
+
+def build_diff(op):
+    def b(tr):
+        H = hz.Harness(tr, "c10_diff_" + op)
+        g = H.local("g", "CacheAccountInfo")
+        r = H.local("r", "CacheAccount")
+        # same starting account on both sides (revm's additionally carries its storage map)
+        st = H.lv(g, "status.d")
+        H.c(f"{st} = nondet_uchar(); __CPROVER_assume({st} < 8); {H.lv(r, 'status.d')} = {st};")
+        H.c(f"{H.lv(g, 'account.d')} = nondet_bool(); {H.lv(r, 'account.d')} = {H.lv(g, 'account.d')};")
+        for f in ("balance", "nonce", "code_hash"):
+            H.c(f"{H.lv(g, 'account.Some.0.' + f)} = nondet_uchar(); {H.lv(r, 'account.Some.0.info.' + f)} = {H.lv(g, 'account.Some.0.' + f)};")
+        H.c(f"{H.lv(g, 'account.Some.0.code.d')} = 0; {H.lv(r, 'account.Some.0.info.code.d')} = 0;")
+        for s_ in range(SL):
+            H.c(f"{H.lv(r, 'account.Some.0.storage.present.e', [s_])} = nondet_bool(); {H.lv(r, 'account.Some.0.storage.keys.e', [s_])} = {s_}; {H.lv(r, 'account.Some.0.storage.vals.e', [s_])} = nondet_uchar();")
+        # representation invariant shared by both caches: account absent exactly in the not-existing / destroyed statuses
+        H.assume(f"({H.lv(g, 'account.d')} == 0) == ({st} == {ST['LoadedNotExisting']} || {st} == {ST['Destroyed']} || {st} == {ST['DestroyedAgain']})")
+        ninfo = H.local("ninfo", "AccountInfo")
+        for f in ("balance", "nonce", "code_hash"):
+            H.c(f"{H.lv(ninfo, f)} = nondet_uchar();")
+        H.c(f"{H.lv(ninfo, 'code.d')} = 0;")
+        nst = H.local("nstorage", "StorageWithOriginalValues")
+        for s_ in range(SL):
+            H.c(f"{H.lv(nst, 'present.e', [s_])} = nondet_bool(); {H.lv(nst, 'keys.e', [s_])} = {s_}; {H.lv(nst, 'vals.e.previous_or_original_value', [s_])} = nondet_uchar(); {H.lv(nst, 'vals.e.present_value', [s_])} = nondet_uchar();")
+        nst2 = H.local("nstorage2", "StorageWithOriginalValues")
+        tr.copy(Loc(nst2, []), Loc(nst, []))
+        ninfo2 = H.local("ninfo2", "AccountInfo")
+        tr.copy(Loc(ninfo2, []), Loc(ninfo, []))
+        H.cvar("amount", "unsigned __int128", shared=False)
+        H.c("amount = (unsigned __int128)nondet_uchar();")
+        if op in ("selfdestruct", "touch_empty_eip161", "increment_balance"):
+            tg = H.local("tg", "Option<TransitionAccount>"); trr = H.local("trr", "Option<TransitionAccount>")
+            extra = [H.val("amount", "unsigned __int128")] if op == "increment_balance" else []
+            H.call(f"CacheAccountInfo::{op}", [H.ref(g)] + extra, tg)
+            H.call(f"CacheAccount::{op}", [H.ref(r)] + extra, trr)
+            H.assert_(f"{H.lv(tg, 'd')} == {H.lv(trr, 'd')}", "a transition is produced in exactly the same cases as by revm")
+            gt, rt, guard = H.nav(tg, "Some.0"), H.nav(trr, "Some.0"), f"{H.lv(tg, 'd')} == 1"
+            bs = None
+        else:
+            pair = H.local("pair", "(TransitionAccount, PlainStorage)"); trr = H.local("trr", "TransitionAccount")
+            H.call(f"CacheAccountInfo::{op}", [H.ref(g), VLoc(Loc(ninfo, [])), VLoc(Loc(nst, []))], pair)
+            H.call(f"CacheAccount::{op}", [H.ref(r), VLoc(Loc(ninfo2, [])), VLoc(Loc(nst2, []))], trr)
+            gt, rt, guard = H.nav(pair, "0"), trr, "1"
+            bs = H.nav(pair, "1")
+        H.assert_(f"{H.lv(g, 'status.d')} == {H.lv(r, 'status.d')}", "resulting account status equals revm's")
+        H.assert_(f"{H.lv(g, 'account.d')} == {H.lv(r, 'account.d')}", "resulting account presence equals revm's")
+        for f in ("balance", "nonce", "code_hash"):
+            H.assert_(f"{H.lv(g, 'account.d')} == 0 || {H.lv(g, 'account.Some.0.' + f)} == {H.lv(r, 'account.Some.0.info.' + f)}", f"resulting account {f} equals revm's")
+
+        def opt_info_eq(a_, b_, what):
+            H.assert_(f"!({guard}) || {H.lv(a_, 'd')} == {H.lv(b_, 'd')}", f"transition.{what}: presence equals revm's")
+            for f in ("balance", "nonce", "code_hash"):
+                H.assert_(f"!({guard}) || {H.lv(a_, 'd')} == 0 || {H.lv(a_, 'Some.0.' + f)} == {H.lv(b_, 'Some.0.' + f)}", f"transition.{what}.{f} equals revm's")
+        opt_info_eq(H.nav(gt, "info"), H.nav(rt, "info"), "info")
+        opt_info_eq(H.nav(gt, "previous_info"), H.nav(rt, "previous_info"), "previous_info")
+        H.assert_(f"!({guard}) || ({H.lv(gt, 'status.d')} == {H.lv(rt, 'status.d')} && {H.lv(gt, 'previous_status.d')} == {H.lv(rt, 'previous_status.d')} && "
+                  f"{H.lv(gt, 'storage_was_destroyed')} == {H.lv(rt, 'storage_was_destroyed')})", "transition status / previous status / storage_was_destroyed equal revm's")
+        for s_ in range(SL):
+            H.assert_(f"!({guard}) || ({H.lv(gt, 'storage.present.e', [s_])} == {H.lv(rt, 'storage.present.e', [s_])} && (!{H.lv(gt, 'storage.present.e', [s_])} || "
+                      f"({H.lv(gt, 'storage.vals.e.present_value', [s_])} == {H.lv(rt, 'storage.vals.e.present_value', [s_])} && "
+                      f"{H.lv(gt, 'storage.vals.e.previous_or_original_value', [s_])} == {H.lv(rt, 'storage.vals.e.previous_or_original_value', [s_])})))", f"transition storage slot {s_} equals revm's")
+            if bs is not None:
+                H.assert_(f"{H.lv(bs, 'present.e', [s_])} == {H.lv(nst2, 'present.e', [s_])} && (!{H.lv(bs, 'present.e', [s_])} || {H.lv(bs, 'vals.e', [s_])} == {H.lv(nst2, 'vals.e.present_value', [s_])})",
+                          f"the slot values handed back for the storage cache are the present values of the changed slots (slot {s_})")
+                H.assert_(f"!{H.lv(nst2, 'present.e', [s_])} || ({H.lv(r, 'account.Some.0.storage.present.e', [s_])} && {H.lv(r, 'account.Some.0.storage.vals.e', [s_])} == {H.lv(bs, 'vals.e', [s_])})",
+                          f"... and they are what revm stores in its own account for those slots (slot {s_})")
+        H.cover(f"{guard} && {H.lv(gt, 'previous_info.d')} == 1", "transition from an existing account")
+        H.cover(f"{H.lv(g, 'status.d')} >= 5", "a destroyed-family status results")
+        return H
+    return b
+
+
 def specs(tier):
     out = [
         Spec("h1_read_then_commit_seq", build("seq"), cfg=cfg(), unwind=5, timeout=900,
@@ -276,4 +364,8 @@ def specs(tier):
              desc="the commit with the worker's read running atomically at any conflicting visible operation of the commit",
              bounds={"addresses": A, "slots": SL, "threads": 2, "context_switches": 2}),
     ]
+    for op in OPS:
+        out.append(Spec(f"h3_diff_{op}", build_diff(op), cfg=diff_cfg(), unwind=5, timeout=900,
+                        desc=f"differential: grevm CacheAccountInfo::{op} (MIR) vs revm-database CacheAccount::{op} (MIR of the dependency) from any (status, account) pair",
+                        bounds={"slots": SL, "value_bits": 8}))
     return out
